@@ -11,6 +11,7 @@ from props_streams import dec_ops, head_variants, int_encodings, C02, lenbytes, 
 @register
 class C06(Prop):
     pid = 'C06'
+    model_is_spec = False
     def gen(self, seed, tier):
         r = random.Random(seed); g = T(seed, valid=1.0); ops = []
         signer = lambda: r.choice(['echo', '(k b0102)', '(k b)', 'echo', '(fail 5)'])
@@ -92,6 +93,7 @@ def has_small_bignum_hex(h):
 @register
 class C07(Prop):
     pid = 'C07'
+    model_is_spec = False
     def gen(self, seed, tier):
         r = random.Random(seed); g = T(seed, bignum=True, valid=0.93); ops = []
         ops += dec_ops(g, r, budget(tier, 9000, 150000), op_choices=('chain',), mut=0.1)
@@ -328,6 +330,7 @@ C11.impl_pred = _c11_pred2
 @register
 class C12(Prop):
     pid = 'C12'
+    model_is_spec = False
     def gen(self, seed, tier):
         r = random.Random(seed); g = T(seed, valid=1.0, orig_p=0.0); ops = []   # stored protected bytes are opaque (C02), not encoder output
         I = lambda x: ('int', x)
@@ -453,6 +456,7 @@ P.WITNESS_PRED['c12-encode-dup'] = lambda w, impl, f: C12().impl_pred(dict(op=w,
 @register
 class C13(Prop):
     pid = 'C13'
+    model_is_spec = False
     def gen(self, seed, tier):
         r = random.Random(seed); g = T(seed, valid=1.0); ops = []
         for _ in range(budget(tier, 500, 8000)):
